@@ -142,6 +142,35 @@ Theorem c03_quiescent_cancelled_not_blocked : forall es a x pk k slow,
 Proof. exact quiescent_cancelled_not_blocked. Qed.
 Print Assumptions c03_quiescent_cancelled_not_blocked.
 
+(* ---------------- panicking callbacks ---------------- *)
+
+(* HoldLock, TryHoldLock and HoldLockMaybeAsync release the mutex by defer: a callback that panics (OPanic in its
+   program; the caller recovers) ends its critical section there.  The operations before the OPanic are performed,
+   nothing after it is, the mutex is free again and the call ends with the recovered panic (13).  All theorems above
+   quantify over event lists that contain such programs, in particular the quiescence theorems: no Wait call stays
+   blocked behind a panicked callback. *)
+Theorem c03_panicking_callback_releases_the_lock : forall s a x ops block,
+  nth_error (acts s) a = Some x -> ak x = KClient ops false block -> apc x = PGate -> sheld s = false -> panics ops = true ->
+  let s' := step s (Sect a) in
+  sheld s' = false /\ (exists x', nth_error (acts s') a = Some x' /\ apc x' = PRet 13 /\ ak x' = ak x) /\
+  sg s' = og (run_ops {| ob := sb s; og := sg s; od := sdirty s; on := snb s; ol := slog s; osamp := samp x |} (upto_panic ops)).
+Proof. exact panicking_section_releases_lock. Qed.
+Print Assumptions c03_panicking_callback_releases_the_lock.
+
+(* the same for a callback that stayed inside the lock (others queued behind it meanwhile) and then panics *)
+Theorem c03_panicking_holder_releases_the_lock : forall s a x ops block,
+  nth_error (acts s) a = Some x -> ak x = KClient ops true block -> apc x = PHold -> panics ops = true ->
+  let s' := step s (Resume a) in
+  sheld s' = false /\ exists x', nth_error (acts s') a = Some x' /\ apc x' = PRet 13.
+Proof. exact panicking_holder_releases_lock. Qed.
+Print Assumptions c03_panicking_holder_releases_the_lock.
+
+(* what is executed of a program: the part before its first OPanic, which contains no OPanic *)
+Theorem c03_program_cut_at_first_panic : forall ops ops',
+  upto_panic (ops ++ OPanic :: ops') = upto_panic ops /\ panics (upto_panic ops) = false.
+Proof. intros ops ops'. split; [apply upto_panic_app | apply upto_panic_no_panic]. Qed.
+Print Assumptions c03_program_cut_at_first_panic.
+
 (* ---------------- monitors and model ---------------- *)
 
 (* for EVERY list of harness events: on the observations the model itself produces (eager schedule of Spec.hstep; the
@@ -219,4 +248,32 @@ Example c03_example_clause9_fires :
   run_obs hstep init evs = [[0; 1; 1]; [1; 1; 3]; [1; 2; 3; 1]; [1; 2; 3; 3]]%N /\
   run_check_bcast [] evs [[0; 1; 1]; [1; 1; 3]; [1; 2; 3; 1]; [1; 2; 3; 2]]%N =
     [Mismatch 3 [1; 2; 3; 3]%N [1; 2; 3; 2]%N; PropFalse 3 9 3].
+Proof. vm_compute. split; reflexivity. Qed.
+
+(* a TryHoldLock callback increments g, broadcasts and then panics (its last g++ is never executed); the Wait call
+   queued at its gate then runs its section and returns nil.  An implementation that leaks the mutex in the panicking
+   call leaves that Wait call blocked although its predicate holds: clauses (3,4) and (3,9) *)
+Example c03_example_panicking_tryholdlock_then_waiter :
+  let evs := [[2; 0; 1; 0; 0]; [1; 1; 0; 0; 2; 0; 99; 2]; [3; 0]]%N in
+  run_obs hstep init evs = [[0; 1; 1]; [1; 2; 1; 13]; [1; 2; 3; 13]]%N /\
+  run_check_bcast [] evs [[0; 1; 1]; [1; 2; 1; 13]; [1; 2; 2; 13]]%N =
+    [Mismatch 2 [1; 2; 3; 13]%N [1; 2; 2; 13]%N; PropFalse 3 4 2; PropFalse 3 9 2].
+Proof. vm_compute. split; reflexivity. Qed.
+
+(* panics on all three entry points: a HoldLock callback that stays inside and panics when resumed (a HoldLockMaybeAsync
+   goroutine and a refused TryHoldLock queue up meanwhile), then a HoldLockMaybeAsync fast path that panics after g++;
+   HoldLockMaybeAsync with a panicking callback while the mutex is held is not an event (nobody could recover it) *)
+Example c03_example_panics_on_all_entry_points :
+  let evs := [[1; 0; 1; 0; 1; 3; 99; 0]; [3; 0]; [1; 2; 0; 0; 2; 0]; [1; 1; 0; 0; 99]; [5; 0]; [3; 1]; [1; 2; 0; 0; 2; 99; 0]]%N in
+  let obss := run_obs hstep init evs in
+  last obss [] = [2; 4; 13; 3; 5; 13; 1]%N /\ length obss = 7 /\ run_check_bcast [] evs obss = [] /\
+  run_obs hstep init (firstn 2 evs ++ [[1; 2; 0; 0; 99]])%N = firstn 2 obss.
+Proof. vm_compute. repeat split; reflexivity. Qed.
+
+(* error identity: a blocked Wait call whose context ends returns context.Canceled (4); one that is observed returning
+   context.DeadlineExceeded (14: e.g. ctx.Err() of a context that ended by deadline) is flagged by clause (3,2) *)
+Example c03_example_wrong_error_identity_flagged :
+  let evs := [[2; 0; 1; 0; 0]; [3; 0]; [4; 0]]%N in
+  run_obs hstep init evs = [[0; 1; 1]; [0; 1; 2]; [0; 1; 4]]%N /\
+  run_check_bcast [] evs [[0; 1; 1]; [0; 1; 2]; [0; 1; 14]]%N = [Mismatch 2 [0; 1; 4]%N [0; 1; 14]%N; PropFalse 3 2 2].
 Proof. vm_compute. split; reflexivity. Qed.
